@@ -2969,6 +2969,9 @@ func (self *TextServerProtocol) commandHandlerScanCommand(_ *TextServerProtocol,
 		}
 		offset = int(v)
 		for i := 2; i < len(args); i += 2 {
+			if i+1 >= len(args) {
+				return self.stream.WriteBytes(self.parser.BuildResponse(false, "Command Parse Args Count Error", nil))
+			}
 			switch strings.ToUpper(args[i]) {
 			case "MATCH":
 				r, cerr := regexp.Compile(strings.ReplaceAll(args[i+1], "*", ".*"))
